@@ -43,13 +43,27 @@ package vars
 //@ func (*Stack).Load props C04,C07
 //@   requires stackWF(s) && s.sp >= uintptr(StateSize)
 
-// Buffers obtained from the pools are exclusively owned by the caller until
-// they are handed back (sync.Pool semantics; ownership is an assumption here
-// and the obligation of the Free* callers, see C06).
-//@ func NewBytes assumed "sync.Pool: returns a pooled or new *[]byte, exclusively owned, length 0"
-//@   ensures result != nil && fresh(result) && len(*result) == 0 && (base(*result) == 0 || fresh(*result))
-//@ func FreeBytes assumed "sync.Pool.Put: the buffer is handed back; no effect visible to the caller"
-//@   requires p != nil
+// ---- buffer pools and ownership (C06).  $pooled (declared with the sync.Pool
+// contract) is the set of references owned by a pool.
+//@ axiom bytespool_elems: forall x any :: sync.poolElem(addr(bytesPool), x) ==> (x == nil || (dyntype(x) == typeid(*ByteSlice) && cast(*ByteSlice, x) != nil))
+
+// NewBytes: a buffer the caller owns exclusively: new or taken out of the pool, never still pooled.
+//@ func NewBytes props C06
+//@   requires option.DefaultEncoderBufferSize <= 1099511627776 && sync.poolWF()
+//@   modifies $pooled
+//@   ensures result != nil && fresh(result) && (base(*result) == 0 || fresh(*result))
+//@   ensures !$pooled[result] && !$pooled[base(*result)]
+//@   ensures forall r int :: $pooled[r] ==> old($pooled[r])
+//@   ensures sync.poolWF()
+
+// FreeBytes: hands the buffer (header and array) to the pool iff it is small enough to be reused.
+//@ func FreeBytes props C06
+//@   requires p != nil && sync.poolWF()
+//@   modifies *p, $pooled
+//@   ensures forall r int :: $pooled[r] == (old($pooled[r]) || (old(cap(*p)) <= int(option.LimitBufferSize) && (r == p || r == old(base(*p)))))
+//@   ensures base(*p) == old(base(*p))
+//@   ensures sync.poolWF()
+
 //@ func NewBuffer assumed "sync.Pool: returns a pooled or new *bytes.Buffer, exclusively owned"
 //@   ensures result != nil && fresh(result)
 //@ func FreeBuffer assumed "sync.Pool.Put: the buffer is handed back; no effect visible to the caller"
